@@ -997,6 +997,22 @@ func (c *EvalCtx) evalCall(e *Expr) *V {
 			a, o, k := c.intOf(e.Args[0]), c.intOf(e.Args[1]), c.intOf(e.Args[2])
 			return st.load(st.elemLoc(a, st.ixTerm(o, k), types.Typ[types.String]))
 		}
+	case "bufBytes":
+		// bufBytes(b): the slice a *bytes.Buffer's Bytes() returns now
+		argc(1)
+		{
+			id := c.refOf(c.eval(e.Args[0]), e.Args[0])
+			arr := sSel(st.comp("buf#arr", 1, "Int"), id)
+			eng.declare("(declare-fun |uf:content.len| (Int) Int)")
+			ln := "(|uf:content.len| " + sSel(st.comp("bytes#content", 1, "Int"), arr) + ")"
+			return &V{K: KSlice, T: types.NewSlice(types.Typ[types.Uint8]), Arr: arr, Off: "0", Len: ln, Cap: ln}
+		}
+	case "encWriter":
+		argc(1)
+		return vInt(sSel(st.comp("enc#w", 1, "Int"), c.intOf(e.Args[0])), types.Typ[types.UnsafePointer])
+	case "encIndent":
+		argc(1)
+		return vInt(sSel(st.comp("enc#indent", 1, "Int"), c.intOf(e.Args[0])), types.Typ[types.String])
 	case "content":
 		// content(s): abstract content of the byte array behind slice s (as produced by the bytes.Buffer / json models)
 		argc(1)
@@ -1055,7 +1071,12 @@ func (c *EvalCtx) evalCall(e *Expr) *V {
 		if a.K != KIface {
 			c.fail("purecall expects an interface receiver")
 		}
-		return vInt("("+fn+" "+a.Tag+" "+a.Val+")", nil)
+		if len(e.Args) == 3 && e.Args[2].Op == "str" && e.Args[2].Str == "iface" {
+			fnt := mangle("pure:" + e.Args[0].Str + "#tag")
+			eng.declare("(declare-fun " + fnt + " (Int Int) Int)")
+			return &V{K: KIface, T: types.NewInterfaceType(nil, nil), Tag: "(" + fnt + " " + a.Tag + " " + a.Val + ")", Val: "(" + fn + " " + a.Tag + " " + a.Val + ")"}
+		}
+		return vInt("("+fn+" "+a.Tag+" "+a.Val+")", types.Typ[types.String])
 	case "wraps":
 		argc(2)
 		a, b := c.eval(e.Args[0]), c.eval(e.Args[1])
